@@ -379,7 +379,7 @@ def run(ctx: Ctx) -> None:
         shard_run(ctx, _random_shard, extra=(60,))
     else:
         shard_run(ctx, _enum_shard, extra=(-1, True))
-        shard_run(ctx, _random_shard, extra=(800,))
+        shard_run(ctx, _random_shard, extra=(4000,))
 
 
 def replay(ctx: Ctx, case: dict) -> None:
